@@ -204,6 +204,9 @@ def explore(prop_id, tier, seed, child=False):
     mod = importlib.import_module(f"mc.props.{prop_id}")
     Res.INDEX = load_index(prop_id)
     shards = list(mod.shards(tier))
+    only = os.environ.get("VERIF_SHARD_FILTER")  # development only (index recording): shards whose first field is this
+    if only:
+        shards = [s for s in shards if str(s[0]) == only]
     total = Res()
     hash_seeds = getattr(mod, "HASH_SEEDS", None)
     if hash_seeds and not child:
